@@ -297,6 +297,17 @@ func (w *world) addWrite(r *rec) {
 		}
 	}
 	w.live[r.ref] = append(w.live[r.ref], r)
+	if w.noReuse {
+		// free-running mode: a write is registered after WriteChunk returned, possibly after a
+		// Truncate that ran concurrently with it was invoked and marked.  No write can land in a file
+		// below fileNo once Truncate(fileNo) has completed, so a record below an invoked Truncate's
+		// fileNo was written before or during that Truncate and is covered by it.
+		for _, f := range w.truncs {
+			if r.seq < f {
+				r.covered = true
+			}
+		}
+	}
 }
 
 func (w *world) markTruncate(fileNo int) {
